@@ -78,3 +78,79 @@ COMMON_ASSUMPTIONS = [
     "trusted axiom: a normalised Gaussian integrates to 1 (continuous integrals are taken layerwise by linearity)",
     "E[theta]=exp(theta), MAX#k free symbols: unsat sound, sat replayed on the real code",
 ]
+
+
+# ---------------------------------------------------------------------------------------------
+# seeded random operator pipelines over random region-graph circuits (thorough tiers)
+# ---------------------------------------------------------------------------------------------
+
+
+def _nvars(d):
+    if "shape" in d:
+        n = 1
+        for x in d["shape"]:
+            n *= x
+        return n
+    return d["nvars"]
+
+
+def random_pipes(seed, n, kind):
+    """kind in integrate / evidence / conjugate / differentiate / multiply"""
+    import random
+
+    from cvf import families
+
+    rnd = random.Random(seed * 7907 + hash(kind) % 1000)
+    inputs = {
+        "integrate": ["cat-softmax", "cat-logits", "cat2-probs", "embedding"],
+        "evidence": ["cat-softmax", "cat-logits", "embedding"],
+        "conjugate": ["cat-logits", "embedding", "embedding2", "cat-softmax"],
+        "differentiate": ["poly1", "poly2"],
+        "multiply": ["cat-logits", "embedding", "embedding2"],
+    }[kind]
+    out = []
+    for d in families.random_members(seed + {"integrate": 11, "evidence": 12, "conjugate": 13, "differentiate": 14, "multiply": 15}[kind], n, inputs=inputs):
+        if d.get("explicit"):
+            d["input"] = rnd.choice(inputs)
+        nv = _nvars(d)
+        if nv > 4 or (d.get("K", 2) == 3 and nv > 3):
+            continue  # keep the random pipelines within what the solver decides in minutes
+        vars_ = list(range(nv))
+        c = {}
+        if kind == "integrate":
+            z = None if rnd.random() < 0.3 else sorted(rnd.sample(vars_, rnd.randint(1, nv)))
+            ops = [["integrate", z]]
+            if rnd.random() < 0.25 and z is not None and len(z) < nv:
+                rest = [v for v in vars_ if v not in z]
+                ops.append(["integrate", sorted(rnd.sample(rest, rnd.randint(1, len(rest))))])
+            if str(d["input"]).endswith("probs"):
+                c["normalized"] = True
+        elif kind == "evidence":
+            ncat = 2 if "2" in d["input"] else 3
+            obs = {str(v): rnd.randrange(ncat) for v in rnd.sample(vars_, rnd.randint(1, nv))}
+            ops = [["evidence", obs]]
+            if len(obs) == nv:
+                c["no_complex"] = True  # a fully observed circuit is a constant: nothing for the complex log path to add
+            if rnd.random() < 0.3:
+                free = [v for v in vars_ if str(v) not in obs]
+                if free:
+                    ops.append(["integrate", sorted(rnd.sample(free, rnd.randint(1, len(free))))])
+        elif kind == "conjugate":
+            ops = [["conjugate"]] + ([["conjugate"]] if rnd.random() < 0.4 else [])
+        elif kind == "differentiate":
+            d["weights"] = rnd.choice(["raw", "exp"])
+            d.pop("mixing", None) if d.get("mixing") == "softmax" else None
+            ops = [["differentiate", rnd.choice([1, 1, 2])]]
+        else:
+            d["weights"] = rnd.choice(["raw", "exp"])
+            if d.get("mixing") == "softmax":
+                d["mixing"] = "raw"
+            d["K"] = min(d.get("K", 2), 2)
+            if d.get("Kin"):
+                d["Kin"] = min(d["Kin"], 2)
+            if nv > 4:
+                continue
+            ops = [[rnd.choice(["square", "multiply_other"])]]
+        c["circuit"] = {"kind": "pipe", "base": d, "ops": ops}
+        out.append(c)
+    return out
